@@ -303,6 +303,7 @@ func (n *node) clone() *node {
 }
 
 type cell struct {
+	ptrVal *ptrv // a local variable of pointer type (e.g. a captured receiver): the pointer it holds
 	id    int
 	param int // >= 0: the pointee of pointer parameter #param; -1: local
 	root  *node
@@ -322,6 +323,7 @@ type ptrv struct {
 }
 
 type sym struct {
+	binds     []sym // a closure's captured variables (pointers to their storage)
 	backLoc   loopLoc // for a backed slice: the array location and its generation when the slice was taken; the slice value
 	backGen   int     // is the list of the array's elements THEN, so it must not be used after the array was written
 	wcell     int // a slice parameter that is written: the cell holding the current list
@@ -372,7 +374,7 @@ func (s *state) clone() *state {
 		c.env[k] = v
 	}
 	for k, v := range s.cells {
-		c.cells[k] = &cell{id: v.id, param: v.param, root: v.root.clone()}
+		c.cells[k] = &cell{id: v.id, param: v.param, root: v.root.clone(), ptrVal: v.ptrVal}
 	}
 	if s.frozen != nil {
 		c.frozen = map[loopLoc]int{}
@@ -404,6 +406,8 @@ type ctx struct {
 	lstack   []*loopInfo
 	loopSeq  int
 	rerun    bool
+	frames   []*inlineFrame
+	inlineSeq int
 	usesDefault bool
 	retConcrete map[int]types.Type
 	fuelVar  string // the fuel variable in scope ("" when the function has not needed fuel yet)
@@ -1086,6 +1090,14 @@ func (c *ctx) instr(s *state, in ssa.Instruction, d int) {
 			if cl == nil {
 				fail("load from consumed memory")
 			}
+			if cl.ptrVal != nil && len(p.ptr.path) == 0 {
+				tc := s.cells[cl.ptrVal.cell.id]
+				if tc == nil {
+					fail("load of a pointer into consumed memory")
+				}
+				s.env[x] = sym{ptr: &ptrv{cell: tc, path: cl.ptrVal.path}, typ: x.Type()}
+				return
+			}
 			if _, isIface := x.Type().Underlying().(*types.Interface); isIface && !isErrorType(x.Type()) {
 				// an interface value is handled as a reference to the place it was read from (its abstract state lives there)
 				c.t.leanType(x.Type())
@@ -1200,6 +1212,11 @@ func (c *ctx) instr(s *state, in ssa.Instruction, d int) {
 		pp := &ptrv{cell: s.cells[p.ptr.cell.id], path: p.ptr.path}
 		if pp.cell == nil {
 			fail("store into consumed memory")
+		}
+		if pv := c.val(s, x.Val); pv.ptr != nil && !pv.iface && pp.cell.param == -1 && len(pp.path) == 0 {
+			// a local variable holding a pointer (a captured receiver)
+			pp.cell.ptrVal = &ptrv{cell: pv.ptr.cell, path: pv.ptr.path}
+			return
 		}
 		if s.frozen != nil {
 			key := ""
@@ -1340,7 +1357,21 @@ func (c *ctx) instr(s *state, in ssa.Instruction, d int) {
 			return
 		}
 		s.env[x] = sym{expr: v.expr, typ: x.X.Type(), boxed: true}
-	case *ssa.TypeAssert, *ssa.ChangeInterface, *ssa.MakeClosure, *ssa.MakeMap, *ssa.MakeChan,
+	case *ssa.MakeClosure:
+		f, ok := x.Fn.(*ssa.Function)
+		if !ok {
+			fail("*ssa.MakeClosure")
+		}
+		var bs []sym
+		for _, b := range x.Bindings {
+			bv := c.val(s, b)
+			if bv.ptr == nil {
+				fail("closure capturing something that is not a variable")
+			}
+			bs = append(bs, bv)
+		}
+		s.env[x] = sym{fn: f, binds: bs, typ: x.Type()}
+	case *ssa.TypeAssert, *ssa.ChangeInterface, *ssa.MakeMap, *ssa.MakeChan,
 		*ssa.MakeSlice, *ssa.MapUpdate, *ssa.Range, *ssa.Next, *ssa.Select, *ssa.Send, *ssa.Go, *ssa.Defer,
 		*ssa.RunDefers, *ssa.SliceToArrayPointer, *ssa.MultiConvert:
 		fail("%T", in)
@@ -2057,7 +2088,76 @@ func (c *ctx) blockFrom(s *state, b *ssa.BasicBlock, from *ssa.BasicBlock, onPat
 			s.env[ph] = phiVals[i]
 		}
 	}
-	for _, in := range b.Instrs[len(phis):] {
+	c.runInstrs(s, b, len(phis), onPath, d)
+}
+
+type inlineFrame struct {
+	fn     *ssa.Function
+	prefix string
+	resume func(s *state, results []sym, d int)
+}
+
+// inline: a call of a closure that captures variables is expanded in place (the captured variables are the caller's);
+// each `return` of the closure continues with the rest of the caller's block
+func (c *ctx) inline(s *state, call *ssa.Call, callee *ssa.Function, binds []sym, b *ssa.BasicBlock, idx int, onPath map[*ssa.BasicBlock]bool, d int) {
+	if len(c.frames) > 4 {
+		fail("closures nested too deeply")
+	}
+	for _, f := range c.frames {
+		if f.fn == callee {
+			fail("recursive closure")
+		}
+	}
+	if callee.Blocks == nil {
+		fail("closure without body")
+	}
+	com := call.Common()
+	for i, p := range callee.Params {
+		av := c.val(s, com.Args[i])
+		if av.fn != nil || av.comps != nil || av.boxed {
+			fail("passing a non-first-order value to a closure")
+		}
+		s.env[p] = av
+	}
+	for i, fv := range callee.FreeVars {
+		s.env[fv] = binds[i]
+	}
+	c.inlineSeq++
+	fr := &inlineFrame{fn: callee, prefix: c.prefix}
+	fr.resume = func(s2 *state, results []sym, d2 int) {
+		switch len(results) {
+		case 0:
+		case 1:
+			s2.env[call] = results[0]
+		default:
+			s2.env[call] = sym{comps: results, typ: call.Type()}
+		}
+		c.runInstrs(s2, b, idx+1, onPath, d2)
+	}
+	c.frames = append(c.frames, fr)
+	c.prefix = fmt.Sprintf("%sk%d_", fr.prefix, c.inlineSeq)
+	c.block(s, callee.Blocks[0], nil, onPath, d)
+	c.prefix = fr.prefix
+	c.frames = c.frames[:len(c.frames)-1]
+}
+
+func (c *ctx) runInstrs(s *state, b *ssa.BasicBlock, start int, onPath map[*ssa.BasicBlock]bool, d int) {
+	for idx := start; idx < len(b.Instrs); idx++ {
+		in := b.Instrs[idx]
+		if call, ok := in.(*ssa.Call); ok && !call.Common().IsInvoke() {
+			if _, isB := call.Common().Value.(*ssa.Builtin); !isB && call.Common().StaticCallee() == nil {
+				if v := c.val(s, call.Common().Value); v.fn != nil && len(v.fn.FreeVars) > 0 {
+					c.inline(s, call, v.fn, v.binds, b, idx, onPath, d)
+					return
+				}
+			} else if f := call.Common().StaticCallee(); f != nil && len(f.FreeVars) > 0 {
+				if mc, ok := call.Common().Value.(*ssa.MakeClosure); ok {
+					v := c.val(s, mc)
+					c.inline(s, call, f, v.binds, b, idx, onPath, d)
+					return
+				}
+			}
+		}
 		switch x := in.(type) {
 		case *ssa.If:
 			// `if !c { A } else { B }` is `if c { B } else { A }`
@@ -2096,6 +2196,20 @@ func (c *ctx) blockFrom(s *state, b *ssa.BasicBlock, from *ssa.BasicBlock, onPat
 			fmt.Fprintf(&c.out, "%s%s\n", ind(d), c.leaf("(Go.panicked default)"))
 			return
 		case *ssa.Return:
+			if n := len(c.frames); n > 0 && c.frames[n-1].fn == x.Parent() {
+				fr := c.frames[n-1]
+				var results []sym
+				for _, r := range x.Results {
+					results = append(results, c.val(s, r))
+				}
+				c.frames = c.frames[:n-1]
+				savedPrefix := c.prefix
+				c.prefix = fr.prefix
+				fr.resume(s, results, d)
+				c.prefix = savedPrefix
+				c.frames = append(c.frames, fr)
+				return
+			}
 			c.leaves++
 			if c.leaves > 400 {
 				fail("too many paths")
@@ -2104,6 +2218,9 @@ func (c *ctx) blockFrom(s *state, b *ssa.BasicBlock, from *ssa.BasicBlock, onPat
 			for i, r := range x.Results {
 				v := c.val(s, r)
 				if _, isSig := r.Type().Underlying().(*types.Signature); isSig && (v.fn != nil || v.fnNil) {
+					if len(v.binds) > 0 {
+						fail("returning a closure that captures variables")
+					}
 					if v.fnNil {
 						parts = append(parts, "(Go.fnRef \"\")")
 					} else {
